@@ -220,6 +220,7 @@ func runCase(b *rt.Built, s *m.Service, meth *m.Method, c *caseRec) string {
 		got = value.Nil()
 	}
 	if meth.Result != nil {
+		got = oracle.MaskOutsideView(d, meth.Result, got, view)
 		if msg := oracle.Match(d, meth.Result, expected, got, false, ""); msg != "" {
 			return fmt.Sprintf("result seen by the client differs: %s\n  returned by the service: %s\n  expected at the client:  %s\n  received:                %s", msg, c.Result.Canon(), expected.Canon(), got.Canon())
 		}
